@@ -206,11 +206,13 @@ def plan(ctx, case, rng, reqs, posts):
 # ---- oracle ---------------------------------------------------------------------------------------------------------
 def oracle(case):
     import nifty.cl as ift
+    import nifty.cl as ift
     rng = np.random.default_rng(case.get("oseed", 0))
     try:
-        dom, ps, space, pd = build_case(case)
+        ift.PowerSpace(build_partner(case["partner"]), case.get("binbounds"))
     except ValueError:
         return None            # the binning has an empty bin: no power space exists
+    dom, ps, space, pd = build_case(case)
     hp = dom[space]
     nb, n = ps.size, hp.size
     pindex = np.asarray(ps.pindex).reshape(-1)
@@ -232,6 +234,9 @@ def oracle(case):
             return ("PowerDistributor.adjoint_times does not sum over the bin", dict(sig, what="adjoint"))
     if float((Ds * f).sum()) != float((s * adj.reshape(pdom.shape)).sum()):
         return ("<D s, f> != <s, D^H f>", dict(sig, what="adjointness"))
+    aspect = case.get("aspect")
+    if aspect == "operator":
+        return _oracle_operator(case, rng, dom, ps, space, pindex, nb, n, pre, post, sig)
     # analysis: |f|^2 = D s  =>  power_analyze(f) == s
     roots = rng.integers(0, 6, size=pdom.shape).astype(np.float64)
     sgn = rng.choice([-1.0, 1.0], size=dom.shape)
@@ -260,6 +265,13 @@ def oracle(case):
             if not (np.allclose(gp.real, roots ** 2, rtol=1e-12, atol=1e-12) and np.allclose(gp.imag, (2 * roots) ** 2, rtol=1e-12, atol=1e-12)):
                 return ("keep_phase_information: the parts are not the spectra of the real and imaginary parts",
                         dict(sig, what="analyze-phase"))
+    if aspect == "analyze":
+        return None
+    return _oracle_operator(case, rng, dom, ps, space, pindex, nb, n, pre, post, sig)
+
+
+def _oracle_operator(case, rng, dom, ps, space, pindex, nb, n, pre, post, sig):
+    import nifty.cl as ift
     # power operator = diagonal of D s
     s1 = rng.integers(1, 6, size=(nb,)).astype(np.float64)
     try:
@@ -307,14 +319,27 @@ def run(ctx):
     reqs, posts = [], []
     for i, c in enumerate(cases):
         c = dict(c, complex=(i % 2 == 1) if "complex" not in c else c["complex"])
+        import nifty.cl as ift
+        try:
+            ift.PowerSpace(build_partner(c["partner"]), c.get("binbounds"))
+        except ValueError:
+            ctx.stat("skipped:binning-with-empty-bin")       # no such power space exists
+            continue
+        n0, p0 = len(reqs), len(posts)
         try:
             plan(ctx, c, rng, reqs, posts)
-        except ValueError as e:
-            ctx.stat("skipped:" + str(e)[:30])
-            continue
-        r = oracle(dict(c, oseed=rng.randrange(1 << 30)))
-        if r:
-            ctx.counterexample(dict(c, oseed=0), *r)
+        except Exception as e:       # the real code failed on a valid configuration: a disagreement, not a harness failure
+            del reqs[n0:], posts[p0:]
+            ctx.compare(dict(c, what="setup"), {"error": type(e).__name__ + ":" + str(e)[:80]}, "ok",
+                        note="C10 real code raised on a valid configuration")
+        for aspect in ("analyze", "operator"):
+            try:
+                r = oracle(dict(c, oseed=rng.randrange(1 << 30), aspect=aspect))
+            except Exception as e:
+                r = (f"the real code raised {type(e).__name__} on a valid power-space configuration: {str(e)[:100]}",
+                     dict(what="raised", error=type(e).__name__))
+            if r:
+                ctx.counterexample(dict(c, oseed=0, aspect=aspect), *r)
     outs = ctx.model(DRIVER, reqs)
     for post, m in zip(posts, outs):
         post(m)
